@@ -91,6 +91,23 @@ theorem compound_roundtrip' (i : Nat) (hi : i < 2 ^ 11 ∨ (2 ^ 31 ≤ i ∧ i <
     · simp only [toCompound, if_true]
       exact or_bit31 _ (by omega)
 
+/-- An integer without the extended flag (bits 29..31 clear) that does not fit 11 bits is refused:
+no standard identifier is made out of its low bits. -/
+theorem compound_out_of_range_refused (i : Nat) (hlo : 2 ^ 11 ≤ i) (hhi : i < 2 ^ 29) :
+    ∀ a, ArbId.fromCompound i ≠ .ok a := by
+  intro a h
+  unfold fromCompound at h
+  rw [make_ok_iff] at h
+  have h1 : i &&& extendedMask = i := by rw [and_ext]; omega
+  have h2 : ((i &&& compoundExtendedMask) != 0) = false := by
+    rw [and_bit31]; simp; omega
+  obtain ⟨_, hv, _⟩ := h
+  simp only [h1, h2, Int.toNat_natCast, Spec.validId] at hv
+  simp at hv; omega
+
+/-- the hypothesis is met: 0x800 is such an integer -/
+example : ∀ a, ArbId.fromCompound 0x800 ≠ .ok a := compound_out_of_range_refused 0x800 (by decide) (by decide)
+
 /-! ## J1939 fields: the mask/shift code equals the div/mod layout of J1939-21 -/
 
 theorem fields_eq_spec (id : Nat) :
